@@ -74,15 +74,6 @@ func runStep(db *redka.DB, mode string, st step) {
 		out.Flush()
 		os.Exit(2)
 	}
-	call := func(e *env) {
-		defer func() {
-			if r := recover(); r != nil {
-				res = "err panic"
-			}
-		}()
-		res = st.run(e, func(v int64) int64 { return v })
-	}
-	_ = call
 	waitFreshMs()
 	switch mode {
 	case "db":
@@ -107,10 +98,6 @@ func runStep(db *redka.DB, mode string, st step) {
 			fail("post-dump", derr)
 		}
 		res = raw
-		// results carrying timestamps are re-rendered with the canonical clock
-		if strings.Contains(raw, "k ") {
-			// cheap: run again is not possible (not idempotent); instead rewrite tokens below
-		}
 	case "tx":
 		err := db.Update(func(tx *redka.Tx) error {
 			rawTx := redka.VerifRawTx(tx)
@@ -171,6 +158,14 @@ func retime(res string, tm func(int64) int64) string {
 }
 
 func main() {
+	if len(os.Args) > 1 && os.Args[1] == "wire" {
+		os.Args = append(os.Args[:1], os.Args[2:]...)
+		wireMain()
+		return
+	}
+	if len(os.Args) > 1 && os.Args[1] == "api" {
+		os.Args = append(os.Args[:1], os.Args[2:]...)
+	}
 	seed := flag.Int64("seed", 1, "PRNG seed")
 	traces := flag.Int("traces", 10, "number of traces (fresh database each)")
 	length := flag.Int("len", 60, "operations per trace")
